@@ -12,11 +12,11 @@ CHECKS = {
  "C01": ("model_checking", "deviation-bounded DFS over schedules x sizes x termination points of the real tunnel; content-pattern prefix oracle",
          "Every execution is the real implementation under a controlled scheduler. Enumerated completely: every dir x flow-control x shape x size list over the chunk/window boundary alphabet (D<=1 quick, 2 thorough, carrier/application granularity); 2-3 concurrent RPCs; every termination cause at every quiescent point; lock/atomic/condition/channel granularity inside the framing and flow-control functions (D<=2/3) and with a termination cause in either order (two default-scheduler families).", "3.C01"),
  "C02": ("model_checking", "exhaustive input enumeration (statuses, metadata maps, handler op sequences, call options) + deviation-bounded DFS at lock granularity of the client's completion path; reference model of gRPC header/trailer rules",
-         "Inputs: finite alphabets enumerated completely and executed on the real tunnel. Schedules: all with <= 2 (quick) / 3 (thorough) deviations where every synchronisation operation of finishStream / Header / Trailer / RecvMsg / Invoke is a scheduling point, with Trailer() and option targets read immediately after the terminal result.", "3.C02"),
+         "Inputs: finite alphabets enumerated completely and executed on the real tunnel. Schedules: all with <= 2 (quick) / 3 (thorough) deviations where every synchronisation operation of finishStream / Header / Trailer / RecvMsg / Invoke is a scheduling point, with Trailer() and option targets read immediately after the terminal result; handlers that reject without reading at the lock granularity of the caller's send path (both default-scheduler families); scripted handlers keep mutating the metadata maps they handed to SetHeader/SetTrailer.", "3.C02"),
  "C03": ("model_checking", "deviation-bounded DFS over all frame timings of bystander RPCs against each kind of disturber RPC; oracle: bystanders end exactly as alone",
-         "All relative timings with <= 1 (quick) / 2 (thorough) deviations of bystander sets x 11 disturbers x forward/reverse x carrier capacity 1/unbounded; hang decided exactly (no enabled thread, virtual clock exhausted).", "3.C03"),
+         "All relative timings with <= 1 (quick) / 2 (thorough) deviations of bystander sets x 11 disturbers x forward/reverse x carrier capacity 1/unbounded; hang decided exactly (no enabled thread, virtual clock exhausted); 15 disturbers incl. exact-window messages and graceful shutdown on forward and reverse tunnels.", "3.C03"),
  "C04": ("fault_enumeration", "every termination cause at every quiescent point of stuck-in-every-phase workloads; TERM + leak oracle",
-         "Fault enumeration: cause x k for every quiescent point k of the run (quick), plus one further schedule deviation (thorough), for 8 causes x flow control / revision zero x 7 in-flight sets.", "3.C04"),
+         "Fault enumeration: cause x k for every quiescent point k of the run (quick), plus one further schedule deviation (thorough), for 8 causes x flow control / revision zero x 7 in-flight sets; plus a watcher goroutine that waits for Done() and reads Err() at once, at the lock granularity of close(), D<=2, both scheduler families.", "3.C04"),
  "C05": ("model_checking", "unbounded / deviation-bounded DFS of the real flow-control core at atomic-operation granularity + frame-level DFS of whole tunnels with a credit-conservation invariant at idle states",
          "Core: all interleavings (small configurations) or all with <= 3/4 deviations of send vs. window updates vs. cancel and accept vs. dequeue vs. close/cancel on the real defaultSender/defaultReceiver. Tunnel: 1-3 streams x 2-3 windows x capacities {1,2,unbounded} with the invariant sender window == peer receiver window at every idle quiescent point.", "3.C05"),
  "C06": ("model_checking", "wire monitor of the window invariants on every frame of every execution + enumerated overrunning raw peers (both roles)",
@@ -24,7 +24,7 @@ CHECKS = {
  "C07": ("fault_enumeration", "cancel / deadline at every quiescent point of an RPC x orderings of the racing frames; exactly-one-legal-outcome oracle",
          "Every point of every shape x handler variant x direction x flow control; thorough adds one further deviation which orders the cancel frame against the peer's close/data/window frames.", "3.C07"),
  "C08": ("model_checking", "deviation-bounded DFS of concurrent stream creation at lock granularity + exhaustive raw-peer id histories against a reference automaton",
-         "2-3 goroutines starting RPCs with every lock/atomic/channel operation of creation, id allocation and the send wrappers as a scheduling point; every id history of length <= 3 (quick) / 4 (thorough) over 20 frames.", "3.C08"),
+         "2-3 goroutines starting RPCs with every lock/atomic/channel operation of creation, id allocation and the send wrappers as a scheduling point; every id history of length <= 3 (quick) / 4 (thorough) over 20 frames, plus 806 histories following new_stream(MaxInt64).", "3.C08"),
  "C09": ("model_checking", "bounded-exhaustive frame histories in both roles against a protocol reference classifier",
          "Every history of length <= 3 over a 26-frame client alphabet (thorough: + every length-4 history that opens a stream first) against the real server, and of length <= 3 over a 22-frame server alphabet against the real client; plus histories whose envelope announces 1 MiB .. 4 GiB but carries little (all four roles); panic capture, exact hang detection, leak, window-bound and per-execution allocation-bound (32 MiB) oracles.", "3.C09"),
  "C10": ("model_checking", "graceful shutdown at every quiescent point x in-flight workloads x later RPCs; differential oracle (in-flight RPCs end as without shutdown)",
